@@ -139,6 +139,9 @@ pub struct Explorer {
     pub counters: BTreeMap<String, u64>,
     pub images: u64,
     pub skip_fsck: bool,
+    /// also crash the transaction that follows a recovery (one level)
+    pub second_level: bool,
+    in_second: bool,
     n: u64,
 }
 
@@ -149,7 +152,7 @@ pub struct ImageVerdict {
 
 impl Explorer {
     pub fn new(pagesize: u64, dir: &str) -> Explorer {
-        Explorer { pagesize, dir: dir.to_string(), counters: BTreeMap::new(), images: 0, skip_fsck: false, n: 0 }
+        Explorer { pagesize, dir: dir.to_string(), counters: BTreeMap::new(), images: 0, skip_fsck: false, second_level: false, in_second: false, n: 0 }
     }
     fn count(&mut self, k: &str) {
         *self.counters.entry(k.to_string()).or_default() += 1;
@@ -212,6 +215,8 @@ impl Explorer {
                 break;
             }
         }
+        let mut second_log: Vec<Ev> = Vec::new();
+        let mut second_want: Option<MBucket> = None;
         let which = match which {
             Some(w) => w,
             None => {
@@ -238,6 +243,12 @@ impl Explorer {
             self.count("followup_commits");
             let mut want = accept[which].clone();
             let val = vec![0x5au8; 300];
+            // second level: record what the follow-up commit writes, to crash it as well
+            let second = self.second_level && !self.in_second;
+            if second {
+                let _ = simos::take_log();
+                simos::set_logging(true);
+            }
             let r = catch(|| -> Result<(), String> {
                 let tx = db.tx(true).map_err(|e| format!("tx(true): {}", e))?;
                 {
@@ -246,6 +257,12 @@ impl Explorer {
                 }
                 tx.commit().map_err(|e| format!("commit: {}", e))
             });
+            let log2 = if second {
+                simos::set_logging(false);
+                simos::take_log()
+            } else {
+                Vec::new()
+            };
             match r {
                 Ok(Ok(())) => {}
                 Ok(Err(e)) => return Err(ImageVerdict { oracle: "crash-followup", detail: format!("transaction after recovery failed: {}", e) }),
@@ -269,6 +286,8 @@ impl Explorer {
                     if let Some(d) = diff(&m, &want, false) {
                         return Err(ImageVerdict { oracle: "crash-followup", detail: format!("after a transaction on the recovered database: {}", d) });
                     }
+                    second_log = log2;
+                    second_want = Some(want.clone());
                 }
                 Ok(Err(e)) => return Err(ImageVerdict { oracle: "crash-followup", detail: e }),
                 Err(p) => return Err(ImageVerdict { oracle: "crash-followup", detail: format!("panicked: {}", p) }),
@@ -289,6 +308,55 @@ impl Explorer {
             }
         }
         drop(db);
+        if !second_log.is_empty() {
+            // crash the follow-up commit too: every kill prefix, and at each sync the prefixes and
+            // leave-one-out subsets of the writes issued since the previous one
+            self.in_second = true;
+            let base = Image { data: img.to_vec(), len };
+            let recovered = accept[which].clone();
+            let post = second_want.clone().unwrap_or_else(|| recovered.clone());
+            let mut res = Ok(());
+            let io: Vec<usize> = (0..second_log.len()).filter(|i| matches!(second_log[*i], Ev::Write { .. } | Ev::Extend { .. } | Ev::Sync { .. })).collect();
+            'outer: for cut in io.iter().cloned().chain(std::iter::once(second_log.len())) {
+                // kill: everything issued before `cut`
+                let mut im = base.clone();
+                for e in &second_log[..cut] {
+                    im.apply(e, None);
+                }
+                self.count("second_level_kill_points");
+                if let Err(iv) = self.judge(&im.data, im.len, &[&recovered, &post], false) {
+                    res = Err(ImageVerdict { oracle: iv.oracle, detail: format!("second crash, during the transaction that followed recovery (kill before event {} of it): {}", cut, iv.detail) });
+                    break 'outer;
+                }
+                // power: at a sync, subsets of the epoch that ends here
+                if cut < second_log.len() && matches!(second_log[cut], Ev::Sync { .. }) {
+                    let start = second_log[..cut].iter().rposition(|e| matches!(e, Ev::Sync { .. })).map(|p| p + 1).unwrap_or(0);
+                    let vol: Vec<usize> = (start..cut).filter(|i| matches!(second_log[*i], Ev::Write { .. } | Ev::Extend { .. })).collect();
+                    let mut durable = base.clone();
+                    for e in &second_log[..start] {
+                        durable.apply(e, None);
+                    }
+                    let mut subsets: Vec<Vec<usize>> = Vec::new();
+                    for p in 0..vol.len() {
+                        subsets.push(vol[..p].to_vec());
+                        subsets.push(vol.iter().cloned().filter(|x| *x != vol[p]).collect());
+                    }
+                    for sset in subsets {
+                        let mut im = durable.clone();
+                        for i in &sset {
+                            im.apply(&second_log[*i], None);
+                        }
+                        self.count("second_level_power_subsets");
+                        if let Err(iv) = self.judge(&im.data, im.len, &[&recovered, &post], false) {
+                            res = Err(ImageVerdict { oracle: iv.oracle, detail: format!("second crash (power loss) during the transaction that followed recovery: {}", iv.detail) });
+                            break 'outer;
+                        }
+                    }
+                }
+            }
+            self.in_second = false;
+            res?;
+        }
         Ok(which)
     }
 }
@@ -364,6 +432,7 @@ fn run(case: &Case, dir: &str) -> Verdict {
     let mut ex = Explorer::new(case.pagesize, dir);
     let spec = case.extra.get("crash").and_then(CrashSpec::from_json);
     let thorough = case.extra.get("thorough").and_then(|x| x.as_bool()).unwrap_or(false);
+    ex.second_level = thorough || case.seed % 4 == 0 || case.extra.get("second_level").and_then(|x| x.as_bool()).unwrap_or(false);
     let result = match spec {
         Some(s) => check_one(&mut ex, &log, &out.commits, &s, true),
         None => explore(&mut ex, &log, &out.commits, case.seed, thorough),
@@ -372,7 +441,7 @@ fn run(case: &Case, dir: &str) -> Verdict {
     v.counters.insert("images".into(), ex.images);
     v.sim_events = simos::total_calls();
     if let Some((spec, viol)) = result {
-        v.extra_out = json!({"crash": spec.to_json()});
+        v.extra_out = json!({"crash": spec.to_json(), "second_level": ex.second_level});
         v.violation = Some(viol);
     }
     if let Some(h) = seq::HARNESS_FAULT.with(|p| p.borrow_mut().take()) {
